@@ -225,7 +225,8 @@ D4Shape(d) == /\ d.rd > 0 /\ d.perr = ""
               /\ \A i \in DOMAIN d.rows : d.rows[i].a = BuiltAddrText(IntendedAddrs(d)[i], d.ab, d.W, d.rd)
               /\ AsRequiredA(d, IntendedAddrs(d))
 Sig(d) ==                               \* of a dump that AsRequired rejects
-    IF d.perr # "" THEN "dump.unparseable"
+    IF d.perr # "" THEN (IF d.rows = <<>> /\ d.start + d.len > d.blen /\ d.blen > 0 THEN "dump.value_outside_its_buffer_not_displayed"   \* consequence of C03's D28
+                         ELSE "dump.unparseable")
     ELSE IF D4Shape(d) THEN "dump.nested_root_addr_width"   \* whichever predicate the cut addresses happen to break
     ELSE IF ~TrueA(d, Addrs(d)) THEN
          IF \E i \in DOMAIN d.rows : Addrs(d)[i] < 0 \/ Addrs(d)[i] % d.L # 0 THEN "dump.false_address"
